@@ -2182,9 +2182,14 @@ class TargetRegistry:
 
         self.register_op('iterate', _get_iterable_handler)
         self.register_op('get', lambda _: getattr)
+        # ops added by extensions through the module-level register_op()
+        # (e.g. 'assign' and 'delete'), so Glommer registries know them too
+        for op_name, kwargs in _EXTENSION_OPS.items():
+            self.register_op(op_name, **kwargs)
 
 
 _DEFAULT_SCOPE = ChainMap({})
+_EXTENSION_OPS = OrderedDict()  # op name -> kwargs of the module-level register_op()
 
 
 def glom(target, spec, **kwargs):
@@ -2438,6 +2443,7 @@ def register_op(op_name, **kwargs):
     See TargetRegistry for more details.
     """
     _DEFAULT_SCOPE[TargetRegistry].register_op(op_name, **kwargs)
+    _EXTENSION_OPS[op_name] = kwargs
     return
 
 
